@@ -127,7 +127,7 @@ contract("C07.validate_column_structure", file=SV_FILE, func="SpreadsheetValidat
              "C07.label.unknown_key_carries_column_and_row": "ctx_kinds == (ErrorContext.COLUMN, ErrorContext.ROW)"}}),
          ensures=BAL, unwind="havoc", assume=NOTE)
 
-class_model("SpreadsheetValidatorM", {"_schema": "Opaque", "_hed_validator": "Opaque", "_onset_validator": "Opaque",
+class_model("SpreadsheetValidatorM", {"_schema": "Opaque", "_hed_validator": "Opaque", "_onset_validator": "Opt[OnsetValidator]",
                                       "invalid_original_rows": "Opaque"})
 CLASSES["SpreadsheetValidatorM"]["opaque_methods"] = True
 class_model("BaseInput", {"has_column_names": "Bool", "needs_sorting": "Bool", "onsets": "Opaque", "dataframe": "Opaque",
@@ -138,7 +138,10 @@ contract("C07.validate", file=SV_FILE, func="SpreadsheetValidator.validate",
                  "error_handler": "ErrorHandlerCtx"},
          returns="Opaque", enc="native", unwind="havoc",
          ghost=dict(G, init=dict(G["init"], called_validate_column_structure="False", called_run_checks="False")),
-         ensures=dict(BAL, **{"C07.phases.column_structure_and_every_row_checked": "called_validate_column_structure and called_run_checks"}),
+         also=["C10"],
+         ensures=dict(BAL, **{"C07.phases.column_structure_and_every_row_checked": "called_validate_column_structure and called_run_checks",
+                              # C10 "for all event histories": the open-scope table of one file never leaks into the next file
+                              "C10.history.fresh_scope_table_per_file": "self._onset_validator is None or fresh(self._onset_validator)"}),
          modifies=["self.invalid_original_rows", "self._hed_validator", "self._onset_validator"],
          raises={"TypeError": "True"},
          assume=NOTE + ["the error_handler=None default (a new ErrorHandler) is not explored; isinstance(data, BaseInput) is unknown to the model "
